@@ -67,6 +67,22 @@ def compute_mu_h(levy_measure, grid: CTMCGrid, axis: np.array, origin: int) -> f
     return mu_h
 
 
+def chain_over_intervals(values) -> np.array:
+    """The chain is simulated interval by interval on the product time grid and restarts at the origin in each of
+    them: carry the end value of the previous intervals over, so that the concatenation is one running path.
+
+    :param values: per interval the array of the chain values (shape (n_k,) or (n_k, dimension)), possibly empty
+    :return: the chain values over all intervals, concatenated along the first axis
+    """
+    level, pieces = 0.0, []
+    for interval_values in values:
+        interval_values = np.asarray(interval_values, dtype=float)
+        if interval_values.shape[0]:
+            pieces.append(level + interval_values)
+            level = pieces[-1][-1]
+    return np.concatenate(pieces) if pieces else np.empty(shape=0, dtype=float)
+
+
 class MarkovChain:
     """Markov Chain object storing the simulation times, its values and state increments."""
 
@@ -257,7 +273,7 @@ class MCSimulationWithJumpTimes(MCSimulation, SimulationWithJumpTimes):
 
     def simulate_jumps(self):
         mc = self.simulate_markov_chain()
-        jump_values = np.concatenate(mc.values).ravel().astype(float)
+        jump_values = chain_over_intervals(mc.values)
         jump_times = mc.times
         return jump_times, jump_values
 
